@@ -534,6 +534,13 @@ def ft27(prog, rr):
         # delegation to another mutator of the facade (extend -> append)
         dele = [x for x in walk_local(m.node) if isinstance(x, ast.Call) and recv_text(x) == "self" and call_name(x) in c.methods and call_name(x) in MUT]
         rr.inst("list_t.%s: %d facade updates, %d model updates" % (name, len(fac), len(mod)))
+        if mod and not dele:
+            # the model update may not be more conditional than the facade update
+            gf = set(guard_facts(m.node, fac[0]))
+            if all(set(guard_facts(m.node, x)) - gf for x in mod):
+                extra = sorted(set(guard_facts(m.node, mod[0])) - gf)
+                rr.finding(m, mod[0], "list_t." + name, "FT27: list_t.%s updates the model's element list only under %s but the facade array always: for the other "
+                           "cases the two arrays disagree about which object sits at an index" % (name, extra), text="model update more conditional in " + name)
         if not mod and not dele:
             rr.finding(m, fac[0], "list_t." + name, "FT27: list_t.%s changes the facade's object array (%s) but not the model's element list: the list then exposes "
                        "objects the solver does not know, while it keeps randomizing (and expanding foreach over) the replaced ones"
@@ -559,14 +566,16 @@ def _bool_guard(prog, cls, e, depth=1):
 
 @rule("SG1", ["C05"], "the enclosing conditions of a soft constraint are combined as Booleans (each compared with zero), not bit by bit", engine="DF", floor=3)
 def sg1(prog, rr):
+    from rules.r30_randset import _soft_attrs
+    GST = _soft_attrs(prog)[0]
     c = prog.cls("RandInfoBuilder")
     n = 0
     for m in c.methods.values():
         for x in walk_local(m.node):
             v = None
-            if isinstance(x, ast.Call) and call_name(x) == "append" and recv_text(x) == "self._soft_cond_l" and x.args:
+            if isinstance(x, ast.Call) and call_name(x) == "append" and recv_text(x) == GST and x.args:
                 v = x.args[0]
-            elif isinstance(x, ast.Assign) and any(isinstance(t, ast.Subscript) and norm(t.value) == "self._soft_cond_l" for t in x.targets):
+            elif isinstance(x, ast.Assign) and any(isinstance(t, ast.Subscript) and norm(t.value) == GST for t in x.targets):
                 v = x.value
             if v is None:
                 continue
